@@ -229,3 +229,25 @@ CHECKS["C20"] = {
         {"name": "wild-nopanic", "run": "^TestC20Wild$", "kind": "rapid", "checks": {"quick": 6000, "thorough": 160000}, "shards": {"quick": 4, "thorough": 16}},
     ],
 }
+
+CHECKS["C06"] = {
+    "pkg": "props/c06",
+    "level": "exploration",
+    "rule": "exhaustive: ALL route sets of size 1..2 (thorough also size 3) over the patterns with <= 2 segments from {a,b,ab,ba,c,:x,:y,a:x,*z} (+ trailing-slash variants and '/'), EVERY registration order, EVERY request path with <= 3 segments over {a,b,ab,ba,c,abc} (+ trailing slash); "
+            "random: sets of 3..12 patterns with <= 4 segments and shared prefixes over GET/POST, 4 registration orders, request paths derived from the patterns (parameters filled with values colliding with sibling static text, segments dropped/appended, trailing slash toggled, static prefix extended). "
+            "One evaluation = one (route set, method, path) lookup compared across all orders and with the reference; non-trivial = the reference trie offers more than one kind of child at some position or backtracks.",
+    "assumptions": [
+        "route sets that registration rejects (panics) in any tested order are outside the property's domain; they are counted, not checked",
+        "whether a parameter may match the empty string is not pinned down by the statement: lookups where the two readings differ are checked for order independence only (class ambiguous-empty-param)",
+        "default engine options (RedirectTrailingSlash on, UseRawPath off); a redirect counts as 'no route handler ran'",
+    ],
+    "level_text": "Bounded-exhaustive + random differential check against an uncompressed-trie reference matcher written from the documented priority rule (static > parameter > catch-all with backtracking), comparing which handler ran, the parameter values and FullPath(), plus the metamorphic relation 'all registration orders give the same outcome'.",
+    "level_note": "Complete within the stated pattern/path alphabet and set size; trusts the 80-line reference matcher.",
+    "technique": "bounded-exhaustive enumeration + rapid random route sets against a reference matcher; order-independence metamorphic relation",
+    "nontrivial_floor": 1000,
+    "units": [
+        {"name": "exhaustive", "run": "^TestC06Exhaustive$", "kind": "plain", "shards": 16},
+        {"name": "exhaustive-triples", "run": "^TestC06Triples$", "kind": "plain", "shards": 16, "tiers": ["thorough"]},
+        {"name": "random-sets", "run": "^TestC06Random$", "kind": "rapid", "checks": {"quick": 2000, "thorough": 80000}, "shards": {"quick": 4, "thorough": 16}},
+    ],
+}
